@@ -47,15 +47,16 @@ def history_case(draw, tier="quick"):
     depth = 0
     for _ in range(nsteps):
         r = draw(st.integers(0, 19))
-        if r == 0 and depth < 2:
-            steps.append({"kind": "enter", "backend": draw(st.sampled_from(BACKENDS))})
+        if r <= 1 and depth < 3:
+            # two names only, so that "with A: with B: with A:" nestings occur
+            steps.append({"kind": "enter", "backend": draw(st.sampled_from(BACKENDS[:2] + BACKENDS))})
             depth += 1
             continue
-        if r == 1 and depth > 0:
+        if r <= 3 and depth > 0:
             steps.append({"kind": "exit"})
             depth -= 1
             continue
-        if r <= 6 and any(s["kind"] == "call" for s in steps):
+        if r <= 8 and any(s["kind"] == "call" for s in steps):
             # exact repetition of an earlier call (cache hit)
             prev = [s for s in steps if s["kind"] == "call"]
             steps.append(copy.deepcopy(prev[draw(st.integers(0, len(prev) - 1))]))
@@ -108,6 +109,30 @@ def history_case(draw, tier="quick"):
         steps.append(step)
     for _ in range(depth):
         steps.append({"kind": "exit"})
+    if draw(st.integers(0, 2)) == 0:
+        # re-entrant nesting "with A: with B: with A: ..." around calls that show the active backend in their text
+        a, b = draw(st.permutations(BACKENDS))[:2]
+        probe = None
+        for s_ in steps:
+            if s_["kind"] == "call" and s_["case"].get("backend") is None and s_["entry"] == s_["case"]["op"] and not s_.get("desc_override") and not s_.get("corrupt_shape"):
+                probe = copy.deepcopy(s_)
+                break
+        if probe is not None:
+            probe["graph"] = True
+            probe["argkinds"] = ["nd"] * len(probe["argkinds"])
+            probe["size_kinds"] = {}
+            block = [{"kind": "enter", "backend": a}, {"kind": "enter", "backend": b}, {"kind": "enter", "backend": a}, probe, {"kind": "exit"}, probe, {"kind": "exit"}, probe, {"kind": "exit"}, probe]
+            pos = draw(st.integers(0, len(steps)))
+            # only insert at with-depth 0
+            d = 0
+            ok_pos = []
+            for i, s_ in enumerate(steps + [None]):
+                if d == 0:
+                    ok_pos.append(i)
+                if s_ is not None:
+                    d += 1 if s_["kind"] == "enter" else (-1 if s_["kind"] == "exit" else 0)
+            pos = ok_pos[pos % len(ok_pos)]
+            steps = steps[:pos] + copy.deepcopy(block) + steps[pos:]
     return {"steps": steps}
 
 
